@@ -40,6 +40,9 @@ PROP = [  # (subject fragment, property ids, key that used to be reported)
  ("ANSI iterator counted control characters inside an escape sequence as text", 'C03', "panic|delta::ansi::ansi_strings_iterator::{closure}|end byte index N is not a char boundary (via get_syntax_style_sections_for_lines, draw::write_boxed); panic|delta::ansi::parse_style_sections|end byte index N is not a char boundary"),
  ("lines with invalid UTF-8 kept their escape sequences in the stripped copy", 'C03', "panic|...superimpose|String mismatch...|via:delta::handlers::hunk::*handle_hunk_line (word-diff) and via:delta::handlers::grep::*_emit_classic_format_code"),
  ("grep line whose line number does not fit usize panicked", 'C03,C16', "panic|...superimpose|String mismatch...|via:delta::handlers::hunk_header::write_to_output_buffer ('rs:18446744073709551616:x'); panic|delta::handlers::grep::get_code_style_sections|start byte index N is not a char boundary"),
+ ("coloured combined-diff line with a tab among its prefix columns panicked", 'C03', "panic|...superimpose|String mismatch...|via:delta::handlers::hunk::*handle_hunk_line (combined diff, moved-colour line '+<TAB>x')"),
+ ("side-by-side wrapping panicked when syntax and diff sections split a grapheme differently", 'C03,C07', "panic|delta::wrapping::wrap_minusplus_block::wrap_syntax_and_diff|assertion `_` failed: syntax and diff wrapping differs; panic|...superimpose|String mismatch...|via:delta::features::side_by_side::paint_minus_or_plus_panel_line / paint_zero_lines_side_by_side (formerly an open finding)"),
+ ("grep hit whose raw line and parsed code disagree panicked", 'C03', "panic|...superimpose|String mismatch...|via:delta::handlers::grep::*_emit_classic_format_code ('!<C3>:<ESC><TAB>](' under git grep)"),
 ]
 log = subprocess.run(['git', '-C', '/repo', 'log', '--format=%H%x09%s', '--reverse'], stdout=subprocess.PIPE).stdout.decode().splitlines()
 fixes = [l.split('\t', 1) for l in log if '\tfix:' in l]
